@@ -6,8 +6,8 @@ package receiveutil
 import (
 	"fmt"
 	"go/ast"
-	"io"
 	"go/token"
+	"io"
 	"net/http"
 	"strings"
 
